@@ -4,7 +4,6 @@
   same outcome on two writers that agree below the cursor and leave them agreeing below the cursor.
   The bounds `cursor ≤ available ≤ |octets|` of the first writer are hypotheses (the writer's own
   invariant gives them; `FieldsOnly` alone lets `available` be arbitrary).
-  Not covered: `add_*_rrset` (the fold of `cgw_addRr` over the RDATAs).
 -/
 import QV.Proofs.ServerAnswerTwoRunI
 import QV.Proofs.WriterThread
@@ -45,5 +44,41 @@ theorem scratchIndepI_addRr (sec : RrSection) (h : Hint) (o : WName) (ty cls ttl
   show (addRrOp sec h o ty cls ttl rd t).1 = _ ∧ Same _ (addRrOp sec h o ty cls ttl rd t).2 ∧ _ = (addRrOp sec h o ty cls ttl rd t).2.hv
   rw [ht, e]
   exact ⟨rfl, same_of_rl r, rfl⟩
+
+/-- **`ScratchIndepI` for `add_*_rrset`** (with the bounds of the first writer) -/
+theorem scratchIndepI_addRrset (sec : RrSection) (h : Hint) (o : WName) (ty cls ttl : Nat) (rds : List (List UInt8))
+    (u s t : State) (hI : Writer.I u) (hpre : o.WF ∧ HintOK Writer.Den u h o) (hf : FieldsOnly u s)
+    (hb1 : s.cursor ≤ s.available) (hb2 : s.available ≤ s.octets.size) (hS : Same s t) (hhv : s.hv = t.hv) :
+    ((AnsCall.addRrset sec h o ty cls ttl rds).run t).1 = ((AnsCall.addRrset sec h o ty cls ttl rds).run s).1 ∧
+      Same ((AnsCall.addRrset sec h o ty cls ttl rds).run s).2 ((AnsCall.addRrset sec h o ty cls ttl rds).run t).2 ∧
+      ((AnsCall.addRrset sec h o ty cls ttl rds).run s).2.hv = ((AnsCall.addRrset sec h o ty cls ttl rds).run t).2.hv := by
+  obtain ⟨l, a, ts, ar, rfl⟩ := hf
+  have w := hI.winv
+  have hw : WInv { u with limit := l, available := a, tsig := ts, arcount := ar } :=
+    ⟨w.c12, hb1, hb2, w.g12, w.labs, w.qn, w.ow, w.rd, w.clabs⟩
+  have hl : PtrLogOK { u with limit := l, available := a, tsig := ts, arcount := ar } := hI.log
+  have hh : Writer.HintOK { u with limit := l, available := a, tsig := ts, arcount := ar } h o :=
+    (hintOK_iff u h o).mp hpre.2
+  obtain ⟨o', e, r⟩ := addRrsetOp_scratch sec h o ty cls ttl rds _ t.octets hw hl hpre.1 hh (rl_of_same hS)
+  have ht := same_wo hS hhv
+  show (addRrsetOp sec h o ty cls ttl rds t).1 = _ ∧ Same _ (addRrsetOp sec h o ty cls ttl rds t).2 ∧
+    _ = (addRrsetOp sec h o ty cls ttl rds t).2.hv
+  rw [ht, e]
+  exact ⟨rfl, same_of_rl r, rfl⟩
+
+/-- **`ScratchIndepI`, with the bounds `cursor ≤ available ≤ |octets|` of the first writer** — every
+    call of the answering phase -/
+theorem scratchIndepI_bounded (c : AnsCall) (u s t : State) (hI : Writer.I u) (hpre : AnsPre c u)
+    (hf : FieldsOnly u s) (hb1 : s.cursor ≤ s.available) (hb2 : s.available ≤ s.octets.size) (hS : Same s t)
+    (hhv : s.hv = t.hv) :
+    (c.run t).1 = (c.run s).1 ∧ Same (c.run s).2 (c.run t).2 ∧ (c.run s).2.hv = (c.run t).2.hv := by
+  have h12 : 12 ≤ s.cursor := by
+    obtain ⟨l, a, ts, ar, rfl⟩ := hf
+    exact hI.winv.c12
+  cases c with
+  | setAa b => exact scratch_setAa b s t h12 hS hhv
+  | setRcode v => exact scratch_setRcode v s t h12 hS hhv
+  | addRr sec h o ty cls ttl rd => exact scratchIndepI_addRr sec h o ty cls ttl rd u s t hI hpre hf hb1 hb2 hS hhv
+  | addRrset sec h o ty cls ttl rds => exact scratchIndepI_addRrset sec h o ty cls ttl rds u s t hI hpre hf hb1 hb2 hS hhv
 
 end QV.ServerContent
